@@ -40,6 +40,9 @@ type GenInput struct {
 	// sealed stream: the interface embeds an interface of another package that has unexported methods; the mock is
 	// written into that other package (the only place where it can be implemented): shape of the unexported methods
 	Sealed string `json:"sealed,omitempty"`
+	// variadic-any stream: variadic parameters whose element type is, or merely looks like, the empty interface, with
+	// unroll-variadic written at this level ("top" | "package" | "interface" | "off")
+	VariadicAny string `json:"variadicAny,omitempty"`
 	// names of interfaces that are also declared as function-local types (inside a function
 	// body / inside a function literal of a package-level initialiser)
 	LocalTypes []string `json:"localTypes"`
@@ -80,6 +83,12 @@ func (p c01) Generate(c *Ctx) []any {
 		g := GenInput{Template: []string{"testify", "matryer"}[i%2], Formatter: []string{"goimports", "gofmt", "noop"}[i%3], Options: map[string]any{}, Sealed: sh}
 		g.Data.Stream = "sealed"
 		g.Data.Placement = "foreign-declaring-pkg"
+		out = append(out, g)
+	}
+	for i, lvl := range []string{"top", "package", "interface", "off"} {
+		g := GenInput{Template: []string{"testify", "testify", "testify", "matryer"}[i%4], Formatter: []string{"gofmt", "noop", "goimports"}[i%3], Options: map[string]any{}, VariadicAny: lvl}
+		g.Data.Stream = "variadic-any"
+		g.Data.Placement = []string{"inpkg", "separate"}[i%2]
 		out = append(out, g)
 	}
 	if p.prop == "C02" {
@@ -165,7 +174,13 @@ func genGen(r *rand.Rand, idx int, stream string) GenInput {
 			it := &in.Data.Ifaces[i]
 			for j := range it.Methods {
 				m := &it.Methods[j]
-				if m.From != "" || !m.Variadic || len(m.Params) == 0 || r.Intn(2) == 0 {
+				if m.From != "" || !m.Variadic || len(m.Params) == 0 {
+					continue
+				}
+				// every second eligible method, whatever the seed draws
+				c01ValTick++
+				if skip := r.Intn(2) == 0; c01ValTick%2 == 0 {
+					_ = skip
 					continue
 				}
 				el := val
@@ -363,6 +378,9 @@ func (p c01) Run(c *Ctx, raw json.RawMessage) Case {
 	}
 	if in.Sealed != "" {
 		return c01Sealed(c, &in, dir)
+	}
+	if in.VariadicAny != "" {
+		return c01VariadicAny(c, &in, dir)
 	}
 	d := &in.Data
 	files := supportFiles()
@@ -652,6 +670,61 @@ func c01RootPackage(c *Ctx, in *GenInput, dir string) Case {
 }
 
 // c01TwoRuns: the method set of an interface also depends on the packages it embeds interfaces from.
+var c01ValTick int
+
+// c01VariadicAny: with unroll-variadic the variadic arguments are handed to testify element by element; an element
+// type that is the empty interface is passed on as it is, one that only has the empty interface as its underlying type
+// (a defined type, a type parameter constrained by any) is not a []interface{} and has to be copied.
+func c01VariadicAny(c *Ctx, in *GenInput, dir string) Case {
+	files := map[string]string{
+		"go.mod":     "module example.com/m\n\ngo 1.23\n\nrequire github.com/stretchr/testify v1.10.0\n\nrequire (\n\tgithub.com/davecgh/go-spew v1.1.1 // indirect\n\tgithub.com/pmezard/go-difflib v1.0.0 // indirect\n\tgithub.com/stretchr/objx v0.5.2 // indirect\n\tgopkg.in/yaml.v3 v3.0.1 // indirect\n)\n",
+		"ext/ext.go": "package ext\n\ntype Val interface{}\n\ntype Opt = interface{}\n\ntype Named interface{ Name() string }\n",
+		"svc/svc.go": "package svc\n\nimport \"example.com/m/ext\"\n\ntype Sink[T any] interface {\n\tPush(items ...T)\n\tPushAll(prefix string, items ...T) (int, error)\n}\n\ntype Logger interface {\n\tLog(format string, vals ...ext.Val) error\n\tVals(vals ...ext.Val)\n\tOpts(opts ...ext.Opt) int\n\tRaw(xs ...interface{})\n\tAny(n int, xs ...any) (string, error)\n\tNamed(ns ...ext.Named) error\n\tStrs(ss ...string) int\n}\n",
+	}
+	if b, err := os.ReadFile(filepath.Join(c.Src, "go.sum")); err == nil {
+		files["go.sum"] = string(b)
+	}
+	var cfg strings.Builder
+	fmt.Fprintf(&cfg, "template: %s\nformatter: %s\nforce-file-write: true\nfilename: mocks_gen.go\n", in.Template, in.Formatter)
+	if in.Data.Placement == "separate" {
+		fmt.Fprintf(&cfg, "dir: \"{{.InterfaceDir}}/mocks\"\npkgname: mocks\n")
+	}
+	td := "template-data:\n%s  unroll-variadic: true\n"
+	if in.VariadicAny == "top" {
+		fmt.Fprintf(&cfg, td, "")
+	}
+	cfg.WriteString("packages:\n  example.com/m/svc:\n")
+	if in.VariadicAny == "package" {
+		cfg.WriteString("    config:\n      " + strings.ReplaceAll(fmt.Sprintf(td, "      "), "\n  unroll", "\n        unroll"))
+	}
+	cfg.WriteString("    interfaces:\n")
+	for _, n := range []string{"Sink", "Logger"} {
+		fmt.Fprintf(&cfg, "      %s:\n", n)
+		if in.VariadicAny == "interface" {
+			fmt.Fprintf(&cfg, "        config:\n          template-data:\n            unroll-variadic: true\n")
+		}
+	}
+	files[".mockery.yml"] = cfg.String()
+	if err := writeFiles(dir, files); err != nil {
+		return Case{Oracle: fail("harness", "%v", err)}
+	}
+	tags := []string{"tmpl-" + in.Template, "stream-variadic-any", "unroll-" + in.VariadicAny, "place-" + in.Data.Placement}
+	res := c.runMockery(dir, nil, nil)
+	if res.Panicked {
+		return Case{Impl: map[string]any{"panic": true}, Oracle: fail("panic", "mockery panicked: %s", lastLines(res.Stderr, 6)), Tags: tags, NoModel: true}
+	}
+	or := Oracle{OK: true}
+	compiles := true
+	if res.Exit != 0 {
+		compiles = false
+		or = fail("does-not-compile", "mockery failed: %s %s", formatErrLine(res), lastLines(res.Stderr, 1))
+	} else if out, err := runGo(dir, "test", "-count=1", "-run", "^$", "./..."); err != nil {
+		compiles = false
+		or = fail("does-not-compile", "variadic parameters over (look-alikes of) the empty interface, template %s, unroll-variadic at %s level: %s", in.Template, in.VariadicAny, lastLines(strings.ReplaceAll(out, dir, ""), 6))
+	}
+	return Case{Impl: map[string]any{"compiles": compiles}, Oracle: or, Nontrivial: true, Tags: tags, NoModel: true}
+}
+
 func c01TwoRuns(c *Ctx, in *GenInput, dir string) Case {
 	base1 := "package base\n\ntype Resource interface {\n\tClose() error\n}\n"
 	base2 := "package base\n\ntype Resource interface {\n\tClose() error\n\tFlush(force bool) (int, error)\n}\n"
